@@ -693,7 +693,10 @@ func OracleTypes(prop string, v *View) []Violation {
 			}
 			add(vv)
 		} else if c.Err != "" && strings.Contains(c.Err, "resolve expressions") && len(v.Facts.RunError) == 0 &&
-			!(c.Cancelled && strings.Contains(c.Err, "not found")) {
+			!(c.Cancelled && strings.Contains(c.Err, "not found")) && !anyGiveUpWithHeldUpGoroutine(v.R) {
+			// (nor is it about types when the detector of a loop item's run gave up over a held-up goroutine -
+			// C09's finding: the loop then fails although the model's loop succeeds, and a lookup in its
+			// error output is evaluated that the model never reaches)
 			// (a cancelled run may produce error-path outputs the uncancelled model does not have - a loop
 			// whose items were aborted - and looking up an item that is not in them fails legitimately)
 			// the workflow was accepted, every value has the declared type according to the model, and still
